@@ -11,6 +11,10 @@ TECH = ('explicit TLA+ specification model-checked with TLC; TLC-emitted '
 
 # property id -> (design_ref, level text, level note, technique suffix)
 CLAIMED = {
+    'C20': ('5/C20, 3.8',
+            'spec/ArlPack.tla transcribes the packing definition in exact integers (exponent from the largest neighbour difference, byte = trunc(diff/step + 127.5) saturating, running reconstruction); ArlPack_MC checks NoWrap, FirstExact and that the one-step bound fails only at cut-off bytes (and, with the bound as invariant, exhibits the witness of known finding C20_K1) on every field of a lattice finer than the quantisation step with differences around 2**9, and emits the fields; pack2d/unpack are run on each field and on random larger fields (other exponents, constants, up to 4x6) scaled by 2**s, s in {0,-20,20,-100,60}; ArlPack_Trace requires bytes, exponent, VAR1, checksum (mod 255) and unpack(pack(x)) to equal the model and evaluates the bound.',
+            'Trusted: integer fields times 2**s are exact in float32, so code and model must agree to the byte. Not decided: arbitrary float32 fields (rounding of LOG near powers of two, accumulated error on long rows), exponents below 7, and the packed-bit FILE layout (index record, variable definitions, arlpackedbit reader / writearlpackedbit) - second sentence of the property.',
+            'field enumeration + pack/unpack traces validated'),
     'C17': ('5/C17, 3.9',
             'spec/Interp.tla defines the exact rational weights of piecewise-linear interpolation (clamped when not extrapolating) and the layer-overlap fractions of conservative regridding; Interp_MC checks on every small grid pair (source length 2-3 quick / 2-4 thorough, both directions, targets inside/outside, shared or sub-range sigma edges) non-negativity, partition of unity, linear exactness, identity, rows-sum-to-one, thickness matching, column conservation and constant preservation, and emits the pairs; getinterpweights, sigma2coeff, interpDimension (along the middle axis of a 3-D variable) and interpSigma (linear, conserve) are run on them (plus longer random grids and single-level sources) and Interp_Trace requires rational equality with the model.',
             'Trusted: Fraction.limit_denominator recovery of floats (residual <= 1e-9; float32 results of interpSigma to 2e-6 with sigma edges in 1/8 units so that coordinates are exact). Exactness for arbitrary float fields and non-dyadic sigma values is only up to rounding and is not decided. interpvars (functional form) not covered.',
